@@ -20,6 +20,10 @@ def run(c):
         "the record-level streams stop spawning children after 6 crashed or hung ones (the check has failed; a hang costs its watchdog)",
         "observation, outside dawn's own call sequences: Run on a Project whose Reload just FAILED dereferences the nil oldEnv of the "
         "half-loaded target (watch mode and gc never run after a failed Reload); the reused-Project stream follows dawn's sequence",
+        "whether a faulted record still means what it meant is decided the way loadTargetInfo reads it (streaming decoder: bytes after "
+        "the first JSON value are not read; the targetInfo struct with its custom dependency-key unescaping); an EMPTY attrs field is "
+        "'written by an older version' by design (target.go compares attrs only when recorded), so blanking it is not a change; doc is never read for an up-to-date decision and attrs only for function targets; the run counter of the requested root //:default has no reader (it is part of the stamp its "
+        "dependents see, and it has none)",
         "INT text other than canonical decimal: the model answers `either` (Go may accept or reject), so only no-crash is constrained",
     ]
     c.coverage["rule"] = (
@@ -74,10 +78,20 @@ def run(c):
                                  "0, 1, 2, half, len-1 and 10 seeded (thorough: every) prefix lengths, 49 junk / wrong-shape JSON contents "
                                  "(only newline, only {, array, number, string, null, wrong type for each field of a record and of the "
                                  "index, null entries, NUL bytes), NUL inside, all NUL, trailing garbage, a directory in place of the "
-                                 "file, chmod 000 (skipped as root); then Load + Run in a child with PreferIndex false and true: no Go "
+                                 "file, chmod 000 (skipped as root); KEY-level mutants of the record's JSON (for every dependency key: each "
+                                 "of its last 3 bytes replaced by 0xff / 0x80 / U+FFFD, truncations, suffixes U+FFFD, U+FFFD+1 hex digit, "
+                                 "U+FFFD zz, U+FFFD --, U+FFFD U+FFFD, cut UTF-8 sequences, a prefix escape, a second key that unescapes to "
+                                 "the same label; dangerous keys added to records without dependencies) and FIELD-level mutants (every "
+                                 "dependency stamp and each of stamp / runs / rerun / attrs / doc / dependencies replaced by a number, "
+                                 "null, true, [], {}, \"\", a 1 MB string, a non-empty array / object); then Load + Run in a child with PreferIndex false and true: no Go "
                                  "panic / fatal error / signal / hang; after a full load a changed target or source record must lead to "
                                  "a reported error or a re-evaluation", "cases": stats.get("recfile.cases", 0)},
                 hist={k: v for k, v in stats.items() if k.startswith("recfile.")})
+        c.count("label.judge", stats.get("label.cases", 0),
+                sample={"judge": "in process, through the dawn overlay: unescapeLabel(escapeLabel(s)) == s and neither panics, and "
+                                 "unescapeLabel on s itself (an ARBITRARY string, as a corrupted record key is) does not panic: every "
+                                 "string up to length 5 (thorough 7) over {a, 0xff, 0xef, 0xbf, 0xbd, '-', '0'} and 20000 (400000) seeded "
+                                 "longer ones built from U+FFFD fragments, hex digits and random bytes", "cases": stats.get("label.cases", 0)})
         c.count("recmulti.judge", stats.get("recmulti.cases", 0),
                 sample={"judge": "three packages (root, a, b) with a function target each, loading concurrently; the function record of "
                                  "EACH target corrupted in turn (stamp not base64 / truncated pickle / foreign value, empty file, '{'), then "
